@@ -1,73 +1,195 @@
 import Model.Masked
 import Model.Generated.UfuncSites
 import Proofs.C19
+import Props.C13
+import Props.C18
 /-!
 C19 — results depend on arguments only, not on history, threads or heap contents.
 
-In every statement the heap is an explicit parameter (`g`, `jc0`, the previous content of a
-caller-supplied `out`); "depends on the arguments only" = "does not depend on that parameter".
-What is *not* covered here (the property is partial by design, DESIGN.md §5 C19): that the
-interpreter, numpy and the C runtime never read uninitialised memory elsewhere — that part is
-only sampled by the perturbation runs of harness/props/c19.py.
+THE PROPERTY (`C19_arguments_only_full`, NOT asserted): for every numerical routine of the library,
+under its real execution semantics, the value is a function of the arguments alone — whatever the
+heap held, however the OpenMP iterations interleave, however many threads / worker processes run,
+whatever was computed before — and no argument is modified unless documented in place.  There is no
+Lean semantics of CPython, numpy, the C runtime or the OS scheduler, so this is not a theorem.
+
+WHAT IS PROVED (each an instance of one clause for executable models of the code):
+* heap clause       — `heap_clause_modelled_partial` : the models of the masked-ufunc routines, of the
+                      libdist wrappers and of `matrix_bincount2d` satisfy the property when the world is
+                      the heap (every allocation receives arbitrary previous content);
+                      supporting statements: `masked_ufunc_garbage_independent` (both directions),
+                      `shannon_entropy_eq_spec`, `*_out_independent_of_initial`, `bincount_*`.
+* thread clause     — `thread_clause_libdist_partial`, `thread_clause_libdist_initial_partial`,
+                      `thread_clause_joint_counts_partial`: the interleaving theorems of C13 and C18
+                      (other models of the same kernels, with schedules) restated.
+* source obligations — `all_sites_initialised`, `all_alloc_sites_initialised`,
+                      `all_accumulators_initialised`: `decide`d over tables regenerated from the source on
+                      every run; they tie the heap clause to what the code contains today.
+CORRESPONDENCE-ONLY (no model, sampled by harness/props/c19.py): "no routine modifies an array passed to
+it" (argument byte snapshots; the models are pure functions, so the second conjunct of `ArgumentsOnly`
+holds for them by construction and says nothing about the code), worker-process-count independence,
+call-history independence (memo / module state), every routine without a model here, and that the
+interpreter and C runtime read no uninitialised memory elsewhere.
 -/
 namespace C19
 open Ens.Masked Ens.Generated.UfuncSites
 
+/-- The property, for a library given as routines under an execution semantics with world `W`
+(heap × schedule × worker count × call history for the real library).  Unasserted. -/
+def C19_arguments_only_full {W : Type} (lib : List (Routine W)) : Prop :=
+  ∀ r ∈ lib, ArgumentsOnly r
+
+/-! ### heap clause for the modelled routines -/
+
+/-- what every allocation of one execution may find in its block, per element type -/
+structure Heap where
+  rat : Nat → Rat
+  fv : Nat → FV
+  nat : Nat → Nat
+
+/-- `np.<ufunc>(args, where=mask, out=np.zeros(shape))` as the six call sites in the source are written -/
+def maskedRoutine (f : Rat → Rat) : Routine Heap where
+  Args := List Bool × List Rat
+  Val := Except Err (List Rat)
+  run := fun w a => (maskedApply f a.1 a.2 (some (npFull 0 a.2.length w.rat)) (npEmpty a.2.length w.rat), a)
+  inPlace := false
+
+def shannonRoutine (lg : Rat → FV) : Routine Heap where
+  Args := List Rat
+  Val := Except Err FV
+  run := fun w p => (shannonEntropy lg p w.fv, p)
+  inPlace := false
+
+/-- libdist wrappers; `out` is documented as the place the distances are written to -/
+def manhattanRoutine : Routine Heap where
+  Args := List (List Rat) × Nat × List Rat × Option (List Rat)
+  Val := Except Err (List Rat)
+  run := fun w a => (manhattan a.1 a.2.1 a.2.2.1 a.2.2.2 w.rat, a)
+  inPlace := true
+
+def bincountRoutine : Routine Heap where
+  Args := List (List Int) × Nat × List (List Int) × Nat × Nat × Nat
+  Val := Except Err (List (List (List (List Nat))))
+  run := fun w a => (matrixBincount2d a.1 a.2.1 a.2.2.1 a.2.2.2.1 a.2.2.2.2.1 a.2.2.2.2.2 w.nat, a)
+  inPlace := false
+
+def modelledRoutines (f : Rat → Rat) (lg : Rat → FV) : List (Routine Heap) :=
+  [maskedRoutine f, shannonRoutine lg, manhattanRoutine, bincountRoutine]
+
+def heap0 : Heap := ⟨fun _ => 0, fun _ => some 0, fun _ => 0⟩
+
+/-- HEAP CLAUSE, PARTIAL: the modelled routines are functions of their arguments whatever every
+allocation finds in its block.  (Missing for the full property: schedules, worker counts, call history,
+the remaining routines, and the correspondence between these models and the code.) -/
+theorem heap_clause_modelled_partial (f : Rat → Rat) (lg : Rat → FV) : C19_arguments_only_full (modelledRoutines f lg) := by
+  intro r hr
+  simp only [modelledRoutines, List.mem_cons, List.mem_nil_iff, or_false] at hr
+  rcases hr with rfl | rfl | rfl | rfl
+  · refine ⟨⟨fun a => ((maskedRoutine f).run heap0 a).1, fun w (a : List Bool × List Rat) => ?_⟩, fun _ _ _ => rfl⟩
+    change maskedApply f a.1 a.2 (some (npFull 0 a.2.length w.rat)) (npEmpty a.2.length w.rat) = maskedApply f a.1 a.2 (some (npFull 0 a.2.length heap0.rat)) (npEmpty a.2.length heap0.rat)
+    rw [npFull_heap_independent 0 a.2.length w.rat heap0.rat]
+    rfl
+  · refine ⟨⟨fun p => ((shannonRoutine lg).run heap0 p).1, fun w (p : List Rat) => ?_⟩, fun _ _ _ => rfl⟩
+    change shannonEntropy lg p w.fv = shannonEntropy lg p heap0.fv
+    rw [shannonEntropy_eq_spec lg p w.fv, shannonEntropy_eq_spec lg p heap0.fv]
+  · refine ⟨⟨fun a => (manhattanRoutine.run heap0 a).1, fun w (a : List (List Rat) × Nat × List Rat × Option (List Rat)) => ?_⟩, fun h => by simp [manhattanRoutine] at h⟩
+    change manhattan a.1 a.2.1 a.2.2.1 a.2.2.2 w.rat = manhattan a.1 a.2.1 a.2.2.1 a.2.2.2 heap0.rat
+    cases a.2.2.2 with
+    | none => exact wrapper_fresh _ a.1 a.2.1 a.2.2.1 w.rat heap0.rat
+    | some o => exact wrapper_congr _ (manhattanKernel_congr a.1 a.2.1 a.2.2.1) a.1 a.2.1 a.2.2.1 _ _ w.rat heap0.rat rfl
+  · refine ⟨⟨fun a => (bincountRoutine.run heap0 a).1, fun w (a : List (List Int) × Nat × List (List Int) × Nat × Nat × Nat) => ?_⟩, fun _ _ _ => rfl⟩
+    exact matrixBincount2d_heap_independent _ _ _ _ _ _ w.nat heap0.nat
+
+/-! ### thread clause: restated from C13 and C18 -/
+
+/-- THREAD CLAUSE for libdist (C13's model of the same kernels, with schedules): every interleaving of
+the rows' step sequences — any thread count, any assignment of iterations to threads, any preemption —
+leaves the buffer the sequential loop leaves. -/
+theorem thread_clause_libdist_partial {ε} (k : Ens.Dist.Kernel) (term : ε → ε → Rat) (rows : List (List ε)) (ys : List ε) (offset stride : Int) (buf : Nat → Ens.Dist.Cell) (hpos : ∀ i, i < rows.length → 0 ≤ Ens.Dist.idx1 offset stride i) (hs : stride ≠ 0 ∨ rows.length ≤ 1) (e : Ens.Sched.Exec Ens.Dist.Cell) (he : Ens.Sched.IsInterleaving (Ens.Dist.progsOf k term rows ys) e) : Ens.Dist.runMem offset stride e buf = Ens.Dist.runMem offset stride (Ens.Sched.seqExec (Ens.Dist.progsOf k term rows ys)) buf :=
+  C13.interleaving_independent k term rows ys offset stride buf hpos hs e he
+
+/-- THREAD + HEAP CLAUSE for libdist with a caller-supplied `out`: two runs under two arbitrary
+schedules, started from two arbitrary buffer contents, agree on every cell of the result. -/
+theorem thread_clause_libdist_initial_partial {ε} (k : Ens.Dist.Kernel) (term : ε → ε → Rat) (X y : Ens.Dist.Arr ε) (out1 out2 : Ens.Dist.Arr Ens.Dist.Cell) (choices1 choices2 : List Nat) (r1 r2 : Ens.Dist.Result) (hoff : out1.offset = out2.offset) (hsh : out1.shape = out2.shape) (hst : out1.strides = out2.strides) (h1 : Ens.Dist.kernelRun k term X y out1 choices1 = .ok r1) (h2 : Ens.Dist.kernelRun k term X y out2 choices2 = .ok r2) : ∃ n so, out1.shape = [n] ∧ out1.strides = [so] ∧ ∀ i, i < n → r1.buf[Ens.Dist.outPos out1.offset so i]? = r2.buf[Ens.Dist.outPos out1.offset so i]? ∧ (r1.buf[Ens.Dist.outPos out1.offset so i]?).isSome :=
+  C13.out_independent_of_initial k term X y out1 out2 choices1 choices2 r1 r2 hoff hsh hst h1 h2
+
+/-- THREAD CLAUSE for `libinfo.matrix_bincount2d` (C18's model): every interleaving of the `prange`
+iterations computes the table of the sequential triple loop. -/
+theorem thread_clause_joint_counts_partial (a b : Ens.Info.Arr) (e : Ens.Sched.Exec Ens.Info.Slab) (h : Ens.Sched.IsInterleaving (Ens.Info.progs a b) e) : Ens.Sched.run e (fun _ => Ens.Info.zeroSlab) = Ens.Sched.run (Ens.Info.seqExec a b) (fun _ => Ens.Info.zeroSlab) :=
+  C18.jc_interleaving a b e h
+
 /-! ### (i) masked element-wise operation -/
 
-/-- Both directions.  With an `out` buffer the result is the same for every heap content `g`.
-Without `out` (numpy allocates), for a mask of the operands' length and a value type with two
-distinct values: the result is the same for all heap contents iff no cell is masked out. -/
-theorem masked_ufunc_garbage_independent {α β} (f : α → β) (mask : List Bool) (args : List α) : (∀ (out g1 g2 : List β), maskedApply f mask args (some out) g1 = maskedApply f mask args (some out) g2) ∧ (mask.length = args.length → ∀ b1 b2 : β, b1 ≠ b2 → ((∀ g1 g2 : List β, g1.length = args.length → g2.length = args.length → maskedApply f mask args none g1 = maskedApply f mask args none g2) ↔ ∀ m ∈ mask, m = true)) :=
-  ⟨fun _ _ _ => rfl, fun hm b1 b2 hb => maskedApply_none_independent_iff f mask args hm b1 b2 hb⟩
+/-- Both directions, each a statement about what the allocator handed out (`g`, `h` : content of the
+blocks).  (a) `out=np.full(z)` (np.zeros): the same result for all heap contents.  (b) no `out`, or
+`out=np.empty(..)`: for a mask of the operands' length and two distinct values, the result is the same for
+all heap contents iff no cell is masked out. -/
+theorem masked_ufunc_garbage_independent {α β} (f : α → β) (mask : List Bool) (args : List α) (z : β) : (∀ (g1 g2 : Nat → β) (h1 h2 : List β), maskedApply f mask args (some (npFull z args.length g1)) h1 = maskedApply f mask args (some (npFull z args.length g2)) h2) ∧ (mask.length = args.length → ∀ b1 b2 : β, b1 ≠ b2 → ((∀ g1 g2 : List β, g1.length = args.length → g2.length = args.length → maskedApply f mask args none g1 = maskedApply f mask args none g2) ↔ ∀ m ∈ mask, m = true)) := by
+  refine ⟨fun g1 g2 h1 h2 => ?_, fun hm b1 b2 hb => maskedApply_none_independent_iff f mask args hm b1 b2 hb⟩
+  rw [npFull_heap_independent z args.length g1 g2]
+  rfl
 
-/-- the explicit witness of the "without `out`" direction: a masked-out cell and two constant
-heaps give two results -/
-theorem masked_ufunc_without_out_two_results {α β} (f : α → β) (mask : List Bool) (args : List α) (hm : mask.length = args.length) (hf : false ∈ mask) (b1 b2 : β) (hb : b1 ≠ b2) : maskedApply f mask args none (List.replicate args.length b1) ≠ maskedApply f mask args none (List.replicate args.length b2) := by
-  rw [maskedApply_none_ok f mask args _ hm (by simp), maskedApply_none_ok f mask args _ hm (by simp)]
-  intro h
-  exact maskedCells_some_false f b1 b2 hb mask args hm hf (by simpa using h)
+/-- the explicit witness of direction (b): a masked-out cell and two constant heaps give two results,
+both for the call without `out` and for `out=np.empty(..)` -/
+theorem masked_ufunc_without_out_two_results {α β} (f : α → β) (mask : List Bool) (args : List α) (hm : mask.length = args.length) (hf : false ∈ mask) (b1 b2 : β) (hb : b1 ≠ b2) : maskedApply f mask args none (npEmpty args.length (fun _ => b1)) ≠ maskedApply f mask args none (npEmpty args.length (fun _ => b2)) ∧ ∀ h1 h2 : List β, maskedApply f mask args (some (npEmpty args.length (fun _ => b1))) h1 ≠ maskedApply f mask args (some (npEmpty args.length (fun _ => b2))) h2 := by
+  rw [npEmpty_const, npEmpty_const]
+  have key : maskedCells f mask args (List.replicate args.length b1) ≠ maskedCells f mask args (List.replicate args.length b2) := maskedCells_some_false f b1 b2 hb mask args hm hf
+  refine ⟨?_, fun h1 h2 => ?_⟩
+  · rw [maskedApply_none_ok f mask args _ hm (by simp), maskedApply_none_ok f mask args _ hm (by simp)]
+    intro h; exact key (by simpa using h)
+  · rw [maskedApply_some_ok f mask args _ h1 hm (by simp), maskedApply_some_ok f mask args _ h2 hm (by simp)]
+    intro h; exact key (by simpa using h)
 
 /-- what each cell of the result holds -/
 theorem masked_cell_spec {α β} (f : α → β) (mask : List Bool) (args : List α) (buf : List β) (i : Nat) (m : Bool) (a : α) (b : β) (hm : mask[i]? = some m) (ha : args[i]? = some a) (hb : buf[i]? = some b) : (maskedCells f mask args buf)[i]? = some (if m then f a else b) :=
   maskedCells_getElem? f mask args buf i m a b hm ha hb
 
 -- non-vacuity: the hypotheses are satisfiable and the two directions really differ
-example : ok? (maskedApply (fun x : Int => x + 1) [true, false] [10, 20] none [7, 7])
+example : ok? (maskedApply (fun x : Int => x + 1) [true, false] [10, 20] none (npEmpty 2 (fun _ => 7)))
     = some [11, 7] := by decide +kernel
-example : ok? (maskedApply (fun x : Int => x + 1) [true, false] [10, 20] none [7, 9])
+example : ok? (maskedApply (fun x : Int => x + 1) [true, false] [10, 20] none (npEmpty 2 (fun k => 7 + 2 * k)))
     = some [11, 9] := by decide +kernel
-example : ok? (maskedApply (fun x : Int => x + 1) [true, false] [10, 20] (some [0, 0]) [7, 9])
+example : ok? (maskedApply (fun x : Int => x + 1) [true, false] [10, 20] (some (npFull 0 2 (fun k => 7 + 2 * k))) [])
     = some [11, 0] := by decide +kernel
+example : ok? (maskedApply (fun x : Int => x + 1) [true, false] [10, 20] (some (npEmpty 2 (fun k => 7 + 2 * k))) [])
+    = some [11, 9] := by decide +kernel
 example : err? (maskedApply (fun x : Int => x + 1) [true] [10, 20] none [7, 9])
     = some .shapeMismatch := by decide +kernel
 
 /-! ### (ii) obligations regenerated from the source on every run -/
 
-/-- every masked ufunc call in the source passes an `out=` buffer (and not one that is itself a
-fresh `np.empty`) -/
+/-- every call that carries `where=` (or may carry it in a `**` splat) and is not provably a non-ufunc
+passes an `out=` that is recognisably an initialised buffer (zeros / ones / full / copy …, or a name whose
+every binding in the function is one); `.pyx` files are scanned textually -/
 theorem all_sites_initialised : ∀ s ∈ sites, s.hasOut = true := by decide
 
-/-- every `np.empty`/`empty_like`/`ndarray(` allocation in the anchored files is followed at
-once by a recognised total initialisation (`.fill`, `[:] =`, or the index loop over its length) -/
-theorem all_alloc_sites_initialised : ∀ s ∈ allocSites, s.init ≠ InitKind.uninitialised := by decide
+/-- allocations whose initialisation the translator cannot recognise, reviewed by hand:
+`mpi/io.py load_npy_as_striped local_data` — filled by consecutive slice writes `local_data[start:end] = …`
+whose offsets are chained (`start = end`) and closed by `assert end == len(local_data)` -/
+def reviewedAllocs : List (String × String × String) :=
+  [("enspara/mpi/io.py", "load_npy_as_striped", "local_data")]
 
-/-- in the anchored kernels every buffer that is accumulated into is zeroed (cell assignment
-`= 0` or `np.zeros`) before its first compound assignment -/
-theorem all_accumulators_zeroed : ∀ s ∈ accumSites, s.zeroed = true := by decide
+/-- every `np.empty` / `empty_like` / `ndarray(` allocation in enspara/**/*.py and *.pyx is followed by a
+recognised total initialisation (`.fill`, `[:] =`, the index loop over its length, an MPI receive-type
+collective as the first use, object dtype) or is in the reviewed list above -/
+theorem all_alloc_sites_initialised : ∀ s ∈ allocSites, s.init ≠ InitKind.uninitialised ∨ (s.file, s.func, s.target) ∈ reviewedAllocs := by decide
+
+/-- in every `.pyx` kernel, every buffer that is accumulated into (`b[i] op= …` or `b[i] = b[i] op …`) got
+defined content first: zeroed over the same full iteration space and not under a condition, allocated by
+`np.zeros`, or bound to a computed array -/
+theorem all_accumulators_initialised : ∀ s ∈ accumSites, s.init ≠ AccumInit.uninitialised := by decide
 
 /-! ### (i') `shannon_entropy` on top of the masked log, NaN-propagating values -/
 
 /-- the code as it is equals the fixed function `-Σ_{p_i>0} p_i·log p_i` for every heap -/
-theorem shannon_entropy_eq_spec (lg : Rat → FV) (p : List Rat) (g : List FV) : shannonEntropy lg p g = .ok (entropySpec lg p) :=
+theorem shannon_entropy_eq_spec (lg : Rat → FV) (p : List Rat) (g : Nat → FV) : shannonEntropy lg p g = .ok (entropySpec lg p) :=
   shannonEntropy_eq_spec lg p g
 
-theorem shannon_entropy_heap_independent (lg : Rat → FV) (p : List Rat) (g1 g2 : List FV) : shannonEntropy lg p g1 = shannonEntropy lg p g2 := by
+theorem shannon_entropy_heap_independent (lg : Rat → FV) (p : List Rat) (g1 g2 : Nat → FV) : shannonEntropy lg p g1 = shannonEntropy lg p g2 := by
   rw [shannonEntropy_eq_spec, shannonEntropy_eq_spec]
 
 /-- without `out=` (the code before the fix): as soon as one probability is not positive and the
 logarithm is finite on positives, a NaN-filled recycled block and the specified value differ -/
-theorem shannon_entropy_without_out_depends_on_heap (lg : Rat → FV) (p : List Rat) (hlg : ∀ x, 0 < x → (lg x).isSome) (hz : ∃ x ∈ p, ¬ 0 < x) : shannonEntropyNoOut lg p (List.replicate p.length none) ≠ .ok (entropySpec lg p) := by
+theorem shannon_entropy_without_out_depends_on_heap (lg : Rat → FV) (p : List Rat) (hlg : ∀ x, 0 < x → (lg x).isSome) (hz : ∃ x ∈ p, ¬ 0 < x) : shannonEntropyNoOut lg p (fun _ => none) ≠ .ok (entropySpec lg p) := by
   rw [shannonEntropyNoOut_nan lg p hz]
   intro h
   have hs := entropySpec_isSome lg p hlg
@@ -76,68 +198,67 @@ theorem shannon_entropy_without_out_depends_on_heap (lg : Rat → FV) (p : List 
   simp at hs
 
 -- the DESIGN.md witness `p = [.5, .5, 0, 0]`: zeros in the heap give the right value, NaNs give NaN
-example : ok? (shannonEntropyNoOut (fun _ => some (-1)) [1/2, 1/2, 0, 0] [some 0, some 0, some 0, some 0])
+example : ok? (shannonEntropyNoOut (fun _ => some (-1)) [1/2, 1/2, 0, 0] (fun _ => some 0))
     = some (some 1) := by decide +kernel
-example : ok? (shannonEntropyNoOut (fun _ => some (-1)) [1/2, 1/2, 0, 0] [none, none, none, none])
+example : ok? (shannonEntropyNoOut (fun _ => some (-1)) [1/2, 1/2, 0, 0] (fun _ => none))
     = some none := by decide +kernel
-example : ok? (shannonEntropy (fun _ => some (-1)) [1/2, 1/2, 0, 0] [none, none, none, none])
+example : ok? (shannonEntropy (fun _ => some (-1)) [1/2, 1/2, 0, 0] (fun _ => none))
     = some (some 1) := by decide +kernel
 
 /-! ### (iii) kernels zero their outputs before accumulating -/
 
-/-- `libdist.manhattan(X, y, out=o)`: the previous content of `o` is irrelevant … -/
-theorem manhattan_out_independent_of_initial (X : List (List Rat)) (ncols : Nat) (y o1 o2 : List Rat) (h : o1.length = o2.length) : manhattan X ncols y (some o1) = manhattan X ncols y (some o2) :=
-  wrapper_congr _ (manhattanKernel_congr X ncols y) X ncols y o1 o2 h
+/-- `libdist.manhattan(X, y, out=o)`: the previous content of `o` (and of the heap) is irrelevant … -/
+theorem manhattan_out_independent_of_initial (X : List (List Rat)) (ncols : Nat) (y o1 o2 : List Rat) (g1 g2 : Nat → Rat) (h : o1.length = o2.length) : manhattan X ncols y (some o1) g1 = manhattan X ncols y (some o2) g2 :=
+  wrapper_congr _ (manhattanKernel_congr X ncols y) X ncols y o1 o2 g1 g2 h
 
-/-- … and equals the call that lets the routine allocate -/
-theorem manhattan_out_eq_fresh (X : List (List Rat)) (ncols : Nat) (y o : List Rat) (h : o.length = X.length) : manhattan X ncols y (some o) = manhattan X ncols y none :=
-  wrapper_none _ (manhattanKernel_congr X ncols y) X ncols y o h
+/-- … and equals the call that lets the routine allocate, whatever that allocation finds -/
+theorem manhattan_out_eq_fresh (X : List (List Rat)) (ncols : Nat) (y o : List Rat) (g1 g2 : Nat → Rat) (h : o.length = X.length) : manhattan X ncols y (some o) g1 = manhattan X ncols y none g2 :=
+  wrapper_none _ (manhattanKernel_congr X ncols y) X ncols y o g1 g2 h
 
-theorem euclidean_out_independent_of_initial (sqrtF : Rat → Rat) (X : List (List Rat)) (ncols : Nat) (y o1 o2 : List Rat) (h : o1.length = o2.length) : euclidean sqrtF X ncols y (some o1) = euclidean sqrtF X ncols y (some o2) :=
-  wrapper_congr _ (euclideanKernel_congr sqrtF X ncols y) X ncols y o1 o2 h
+theorem euclidean_out_independent_of_initial (sqrtF : Rat → Rat) (X : List (List Rat)) (ncols : Nat) (y o1 o2 : List Rat) (g1 g2 : Nat → Rat) (h : o1.length = o2.length) : euclidean sqrtF X ncols y (some o1) g1 = euclidean sqrtF X ncols y (some o2) g2 :=
+  wrapper_congr _ (euclideanKernel_congr sqrtF X ncols y) X ncols y o1 o2 g1 g2 h
 
-theorem euclidean_out_eq_fresh (sqrtF : Rat → Rat) (X : List (List Rat)) (ncols : Nat) (y o : List Rat) (h : o.length = X.length) : euclidean sqrtF X ncols y (some o) = euclidean sqrtF X ncols y none :=
-  wrapper_none _ (euclideanKernel_congr sqrtF X ncols y) X ncols y o h
+theorem euclidean_out_eq_fresh (sqrtF : Rat → Rat) (X : List (List Rat)) (ncols : Nat) (y o : List Rat) (g1 g2 : Nat → Rat) (h : o.length = X.length) : euclidean sqrtF X ncols y (some o) g1 = euclidean sqrtF X ncols y none g2 :=
+  wrapper_none _ (euclideanKernel_congr sqrtF X ncols y) X ncols y o g1 g2 h
 
-theorem hamming_out_independent_of_initial (X : List (List Rat)) (ncols : Nat) (y o1 o2 : List Rat) (h : o1.length = o2.length) : hamming X ncols y (some o1) = hamming X ncols y (some o2) :=
-  wrapper_congr _ (hammingKernel_congr X ncols y) X ncols y o1 o2 h
+theorem hamming_out_independent_of_initial (X : List (List Rat)) (ncols : Nat) (y o1 o2 : List Rat) (g1 g2 : Nat → Rat) (h : o1.length = o2.length) : hamming X ncols y (some o1) g1 = hamming X ncols y (some o2) g2 :=
+  wrapper_congr _ (hammingKernel_congr X ncols y) X ncols y o1 o2 g1 g2 h
 
-theorem hamming_out_eq_fresh (X : List (List Rat)) (ncols : Nat) (y o : List Rat) (h : o.length = X.length) : hamming X ncols y (some o) = hamming X ncols y none :=
-  wrapper_none _ (hammingKernel_congr X ncols y) X ncols y o h
+theorem hamming_out_eq_fresh (X : List (List Rat)) (ncols : Nat) (y o : List Rat) (g1 g2 : Nat → Rat) (h : o.length = X.length) : hamming X ncols y (some o) g1 = hamming X ncols y none g2 :=
+  wrapper_none _ (hammingKernel_congr X ncols y) X ncols y o g1 g2 h
 
--- non-vacuity: a real distance comes out, whatever was in `out`; and the `+=` loop alone
+-- non-vacuity: a real distance comes out, whatever was in `out` / the heap; and the `+=` loop alone
 -- (the kernel with its zeroing loop removed) does depend on the previous content
-example : ok? (manhattan [[1, 2], [3, 5]] 2 [0, 1] (some [100, -7]))
+example : ok? (manhattan [[1, 2], [3, 5]] 2 [0, 1] (some [100, -7]) (fun _ => 3))
     = some [2, 7] := by decide +kernel
-example : ok? (manhattan [[1, 2], [3, 5]] 2 [0, 1] none)
+example : ok? (manhattan [[1, 2], [3, 5]] 2 [0, 1] none (fun k => 50 + k))
     = some [2, 7] := by decide +kernel
-example : ok? (hamming [[1, 2], [0, 1]] 2 [0, 1] (some [100, -7]))
+example : ok? (hamming [[1, 2], [0, 1]] 2 [0, 1] (some [100, -7]) (fun _ => 3))
     = some [some 1, some 0] := by decide +kernel
-example : ok? (hamming [[], []] 0 [] none)
+example : ok? (hamming [[], []] 0 [] none (fun _ => 3))
     = some [none, none] := by decide +kernel
 example : accumulate (fun x yj => absR (x - yj)) [[1, 2], [3, 5]] [0, 1] [100, -7] = [102, 0] := by decide +kernel
-example : err? (manhattan [[1, 2]] 2 [0, 1] (some [1, 2]))
+example : err? (manhattan [[1, 2]] 2 [0, 1] (some [1, 2]) (fun _ => 0))
     = some .dataInvalid := by decide +kernel
 
-/-- `libinfo.matrix_bincount2d`: the block `np.zeros` receives from the allocator is irrelevant -/
-theorem bincount_out_independent_of_initial (a : List (List Int)) (fa : Nat) (b : List (List Int)) (fb na nb : Nat) (g1 g2 : Nat → Nat → Nat → Nat → Nat) : matrixBincount2d a fa b fb na nb g1 = matrixBincount2d a fa b fb na nb g2 :=
-  rfl
+/-- `libinfo.matrix_bincount2d`: what the block held before `np.zeros` overwrote it is irrelevant
+(a statement about the zeroing: `matrixBincount2dNoZero` below fails it) -/
+theorem bincount_out_independent_of_initial (a : List (List Int)) (fa : Nat) (b : List (List Int)) (fb na nb : Nat) (g1 g2 : Nat → Nat) : matrixBincount2d a fa b fb na nb g1 = matrixBincount2d a fa b fb na nb g2 :=
+  matrixBincount2d_heap_independent a fa b fb na nb g1 g2
 
-/-- each cell of the zero-started accumulation is exactly the number of co-occurrences … -/
-theorem bincount_cell_is_pair_count (a b : List (List Int)) (fa fb i j : Nat) : bincountFrom (fun _ _ _ _ => 0) a b fa fb i j = pairCount (column a fa) (column b fb) i j :=
-  bincountFrom_zero a b fa fb i j
+/-- with `np.empty` in place of `np.zeros` the table depends on the heap (concrete witness) -/
+theorem bincount_without_zeroing_counterexample : ¬ (∀ g1 g2 : Nat → Nat, matrixBincount2dNoZero [[0]] 1 [[0]] 1 1 1 g1 = matrixBincount2dNoZero [[0]] 1 [[0]] 1 1 1 g2) := by
+  intro h
+  have := congrArg ok? (h (fun _ => 0) (fun _ => 5))
+  revert this
+  decide +kernel
 
-/-- … whereas started from a block with content `jc0` it is off by exactly that content -/
-theorem bincount_from_garbage_offset (jc0 : Nat → Nat → Nat → Nat → Nat) (a b : List (List Int)) (fa fb i j : Nat) : bincountFrom jc0 a b fa fb i j = jc0 fa fb i j + bincountFrom (fun _ _ _ _ => 0) a b fa fb i j := by
-  simp [bincountFrom]
-
-example : ok? (matrixBincount2d [[0, 1], [1, 1], [0, 1]] 2 [[0], [0], [1]] 1 2 2 (fun _ _ _ _ => 99))
+example : ok? (matrixBincount2d [[0, 1], [1, 1], [0, 1]] 2 [[0], [0], [1]] 1 2 2 (fun k => 99 + k))
     = some [[[[1, 1], [1, 0]]], [[[0, 0], [2, 1]]]] := by decide +kernel
-example : err? (matrixBincount2d [[0], [2]] 1 [[0], [0]] 1 2 2 (fun _ _ _ _ => 0))
-    = some .assertion := by decide +kernel
-example : err? (matrixBincount2d [[0], [-1]] 1 [[0], [0]] 1 2 2 (fun _ _ _ _ => 0))
-    = some .assertion := by decide +kernel
-example : err? (matrixBincount2d [] 1 [] 1 2 2 (fun _ _ _ _ => 0))
-    = some .valueError := by decide +kernel
+example : ok? (matrixBincount2dNoZero [[0, 1], [1, 1], [0, 1]] 2 [[0], [0], [1]] 1 2 2 (fun k => 10 * k))
+    = some [[[[1, 11], [21, 30]]], [[[40, 50], [62, 71]]]] := by decide +kernel
+example : err? (matrixBincount2d [[0], [2]] 1 [[0], [0]] 1 2 2 (fun _ => 0)) = some .assertion := by decide +kernel
+example : err? (matrixBincount2d [[0], [-1]] 1 [[0], [0]] 1 2 2 (fun _ => 0)) = some .assertion := by decide +kernel
+example : err? (matrixBincount2d [] 1 [] 1 2 2 (fun _ => 0)) = some .valueError := by decide +kernel
 
 end C19
